@@ -224,6 +224,14 @@ Definition proxy_attempt (id : bytes) (b : peer) (rep : preply) (hello : greetin
   | Some e => mkOut (Failed e) [b]
   end.
 
+(* the whole sequence of messages the broker socket delivers after the reply:
+   only the first one is read; it decides.  Nothing at all = closed. *)
+Definition proxy_attempt_stream (id : bytes) (b : peer) (rep : preply) (hellos : list greeting) : outcome :=
+  match hellos with
+  | [] => proxy_attempt id b rep GClosed
+  | g :: _ => proxy_attempt id b rep g
+  end.
+
 Inductive mode := MStandard | MProxy | MNested.
 (* dialOne: a broker address that still carries '#' is resolved by one
    streaming request to the entry broker; else ProxyReturnAddr decides *)
